@@ -9,7 +9,7 @@
 (* <<"fail", clause>> naming the first clause the observation falsifies.   *)
 (* These operators are the only source of VIOLATION lines.                 *)
 (***************************************************************************)
-EXTENDS Integers, Sequences, FiniteSets, BigNat, Notes, Tempo, FramingP, Lines, Render, Durations, Errors
+EXTENDS Integers, Sequences, FiniteSets, BigNat, Notes, Tempo, FramingP, Lines, Render, Durations, Errors, Enums
 
 \* first failing clause of a sequence of <<name, bool>> pairs
 RECURSIVE FirstFail(_)
@@ -469,6 +469,21 @@ X03V(r) == FirstFail(<<
   <<"message-of-the-reject-branch", r.wantcls = "chart" \/ MessageMatches(r.reason, r.msg)>>
 >>)
 
+\* X05: the enumerations of the public API equal the tables of Enums.tla (members in definition order, values, aliases)
+SeqSet(x) == { x[k] : k \in DOMAIN x }
+X05V(r) == FirstFail(<<
+  <<"difficulties", r.difficulties = Difficulties>>,
+  <<"instruments", r.instruments = Instruments>>,
+  <<"player2", r.player2 = Player2>>,
+  <<"hopo-states", r.hopo = HopoStates>>,
+  <<"note-track-indices", r.indices = [k \in DOMAIN TrackIndices |-> <<TrackIndices[k][1], TrackIndices[k][2]>>]>>,
+  <<"note-track-index-aliases", \A k \in DOMAIN TrackIndices : TrackIndices[k][3] # "" =>
+        \E j \in DOMAIN r.index_aliases : r.index_aliases[j] = <<TrackIndices[k][3], TrackIndices[k][1]>>>>,
+  <<"notes", Len(r.notes) = Len(NoteTable) /\ \A k \in DOMAIN NoteTable :
+        r.notes[k].name = NoteTable[k].name /\ SeqSet(r.notes[k].lanes) = NoteTable[k].lanes>>,
+  <<"note-aliases", \A k \in DOMAIN NoteTable : \E j \in DOMAIN r.note_aliases : r.note_aliases[j] = <<NoteTable[k].alias, NoteTable[k].name>>>>
+>>)
+
 (***************************** dispatch ************************************)
 VerdictOf(p, r) ==
   CASE p = "C02" -> C02V(r)
@@ -479,6 +494,7 @@ VerdictOf(p, r) ==
     [] p = "X01" -> X01V(r)
     [] p = "X02" -> X02V(r)
     [] p = "X03" -> X03V(r)
+    [] p = "X05" -> X05V(r)
     [] p = "C07" -> C07V(r)
     [] p = "C09" -> C09V(r)
     [] p = "C10" -> C10V(r)
